@@ -2,6 +2,7 @@ package compose
 
 import (
 	"context"
+	"errors"
 
 	"github.com/cloudwego/eino/components/model"
 	"github.com/cloudwego/eino/schema"
@@ -688,4 +689,48 @@ func VerifC16UnreachedNested() {
 		want = 1
 	}
 	vassert(len(rec) == want, "and reaches exactly its node, when that node runs")
+}
+
+// A per-call step limit designated to a nested graph limits that graph and nothing else: the enclosing graph (which
+// needs more steps than the limit) still completes, and the nested graph fails exactly when it needs more steps than
+// the limit; undesignated, the limit applies to the graph the call is made on.
+func VerifC16RuntimeSteps() {
+	ctx := context.Background()
+	vcfg("fifo", 1)
+	sub := NewGraph[map[string]any, map[string]any]()
+	_ = sub.AddLambdaNode("s1", vNode("s1", nil))
+	_ = sub.AddLambdaNode("s2", vNode("s2", nil))
+	_ = sub.AddEdge(START, "s1")
+	_ = sub.AddEdge("s1", "s2")
+	_ = sub.AddEdge("s2", END) // the nested graph needs 2 steps
+	g := NewGraph[map[string]any, map[string]any]()
+	_ = g.AddLambdaNode("a", vNode("a", nil))
+	_ = g.AddLambdaNode("b", vNode("b", nil))
+	_ = g.AddGraphNode("sub", sub)
+	_ = g.AddLambdaNode("c", vNode("c", nil))
+	_ = g.AddLambdaNode("d", vNode("d", nil))
+	prev := START
+	for _, k := range []string{"a", "b", "sub", "c", "d"} {
+		_ = g.AddEdge(prev, k)
+		prev = k
+	}
+	_ = g.AddEdge(prev, END) // the enclosing graph needs 5 steps
+	r, err := g.Compile(ctx)
+	vassert(err == nil, "graph compiles")
+	limit := vrange("limit", 1, 6)
+	designated := vchoose("designated", 2) == 1
+	opt := WithRuntimeMaxSteps(limit)
+	if designated {
+		opt = opt.DesignateNode("sub")
+	}
+	_, rerr := r.Invoke(ctx, map[string]any{"in": 1}, opt)
+	needs := 5
+	if designated {
+		needs = 2
+	}
+	if limit >= needs {
+		vassert(rerr == nil, "a step limit the addressed graph stays within does not fail the run (it is not applied to any other graph)")
+	} else {
+		vassert(rerr != nil && errors.Is(rerr, ErrExceedMaxSteps), "the addressed graph fails with the step-limit error when it needs more steps than the limit")
+	}
 }
